@@ -6,6 +6,7 @@ import (
 	"go/token"
 	"go/types"
 	"os"
+	"strings"
 )
 
 // ---------------------------------------------------------------------------
@@ -187,6 +188,9 @@ func init() {
 			{ID: "C06.R8", Floor: 3, Doc: "goroutine stopped by a bare blocking send on a quit channel: every return inside its loop is preceded by a receive from that channel", Run: c06r8},
 			{ID: "C06.R10", Floor: 2, Doc: "contextWriter contract: no context consultation after hand-over (a released stream whose frame is still queued breaks release-once)", Run: c07r4},
 			{ID: "C06.R9", Floor: 5, Doc: "every unconditional goroutine loop has a select case on a quit/ctx channel that leaves the loop", Run: c06r9},
+			{ID: "C06.R11", Floor: 4, Doc: "the direct writer releases its semaphore exactly once on every exit after acquiring it: a leaked token blocks every later request of the connection (=C07.R2)", Run: c07r2},
+			{ID: "C06.R12", Floor: 6, Doc: "stream ids are claimed and released by compare-and-swap against a freshly loaded word, so none is lost or handed out twice (=C08.R2)", Run: c08r2},
+			{ID: "C06.R13", Floor: 2, Doc: "a field that is taken over into a local and cleared is cleared in the critical section that captured it (what is registered in between would be dropped and never answered)", Run: ruleCaptureClear},
 		},
 	})
 }
@@ -995,4 +999,119 @@ func (p *Program) onlyRunThroughOnce(fi *FuncInfo, typ, field string) bool {
 		})
 	}
 	return nref > 0 && ok
+}
+
+// ruleCaptureClear: the hand-over idiom `cur := x.f; x.f = nil` (take what was registered, leave an empty slot) is
+// atomic only inside one critical section. If the mutex is released between the capture and the clearing, whatever
+// another goroutine registers in x.f in the meantime is overwritten by the nil and is never served: a waiter hangs.
+// Instances: every function that assigns a pointer/slice/map/chan field of its receiver to a local and later assigns
+// nil (or an empty literal) to that same field; both under the same mutex of the receiver.
+func ruleCaptureClear(p *Program, r *Report) {
+	n := 0
+	p.forEachFunc(false, func(fi *FuncInfo) {
+		if fi.Pkg != p.Root || fi.Decl.Body == nil {
+			return
+		}
+		info := fi.Pkg.TypesInfo
+		type cap struct {
+			as    *ast.AssignStmt
+			field *types.Var
+			text  string
+		}
+		var caps []cap
+		var clears []cap
+		inspectNoLit(fi.Decl.Body, func(x ast.Node) bool {
+			as, ok := x.(*ast.AssignStmt)
+			if !ok || len(as.Lhs) != len(as.Rhs) {
+				return true
+			}
+			for i, l := range as.Lhs {
+				// capture: local := x.f
+				if _, isId := l.(*ast.Ident); isId {
+					if fv := fieldOf(info, as.Rhs[i]); fv != nil && isFieldPath(as.Rhs[i]) {
+						switch fv.Type().Underlying().(type) {
+						case *types.Pointer, *types.Slice, *types.Map, *types.Chan:
+							caps = append(caps, cap{as, fv, exprStr(ast.Unparen(as.Rhs[i]))})
+						}
+					}
+				}
+				// clear: x.f = nil / x.f = x.f[:0] is not a clear; only nil or an empty composite
+				if fv := fieldOf(info, l); fv != nil && as.Tok == token.ASSIGN {
+					if isNil(info, as.Rhs[i]) {
+						clears = append(clears, cap{as, fv, exprStr(ast.Unparen(l))})
+					}
+				}
+			}
+			return true
+		})
+		if len(caps) == 0 || len(clears) == 0 {
+			return
+		}
+		var locks *Solution[strset]
+		for _, c := range caps {
+			for _, cl := range clears {
+				if cl.field != c.field || cl.text != c.text || cl.as.Pos() < c.as.Pos() {
+					continue
+				}
+				g := p.GraphOf(fi)
+				if locks == nil {
+					locks = g.Lockset()
+				}
+				ls, _ := locks.Before(c.as)
+				// only captures made under a lock of the same object
+				root := ""
+				if sel, isSel := ast.Unparen(c.as.Rhs[0]).(*ast.SelectorExpr); isSel {
+					root = exprStr(sel.X)
+				}
+				var mu string
+				for l := range ls {
+					m := strings.TrimPrefix(l, "R:")
+					if root != "" && strings.HasPrefix(m, root+".") {
+						mu = m
+					}
+				}
+				if mu == "" {
+					continue
+				}
+				n++
+				// no release of mu between the capture and the clearing, on any path
+				sol := Solve(g, Lattice[int]{
+					Join: func(a, b int) int {
+						if a > b {
+							return a
+						}
+						return b
+					},
+					Eq: func(a, b int) bool { return a == b },
+					Step: func(s int, st Step) int {
+						if st.Kind != StNode {
+							return s
+						}
+						if st.Node == ast.Node(c.as) {
+							return 1
+						}
+						if s == 1 {
+							for _, call := range callsIn(st.Node) {
+								if kind, isMu := isMutexMethod(calleeName(info, call)); isMu && (kind == "Unlock" || kind == "RUnlock") {
+									if _, isDefer := st.Node.(*ast.DeferStmt); isDefer {
+										continue
+									}
+									if rx := recvExpr(call); rx != nil && exprStr(ast.Unparen(rx)) == mu {
+										return 2
+									}
+								}
+							}
+						}
+						return s
+					},
+				})
+				st, ok := sol.Before(cl.as)
+				r.Check(ok && st != 2, cl.as, fi.Name+" clears "+c.text+" in the critical section that captured it", "no unlock of "+mu+" between `"+exprStr(c.as.Lhs[0])+" := "+c.text+"` and `"+c.text+" = nil`",
+					c.text+" is captured at "+p.Pos(c.as)+" and set to nil only after "+mu+" was released in between: what another goroutine stores there meanwhile is wiped out and never served (its waiter blocks forever)")
+			}
+		}
+	})
+	if n == 0 {
+		r.Unresolved("no capture-and-clear of a receiver field under a mutex found")
+	}
 }
